@@ -216,7 +216,24 @@ def opener_branch_agreement(ctx, clause):
         raise AnalysisError('opener has no np.memmap branch')
     rd, rs, ro = arg(ref, 'dtype', 1), arg(ref, 'shape', 4), arg(ref, 'order', 5)
     names = derived(opener.node, rd) if rd is not None else set()
-    ctx.decide(rd is not None and 'arrayinfotodtype' in names, 'R-FLOW', clause, opener, ref, 'map-dtype-from-descriptor',
+    # the validated descriptor may carry the derived description itself: <d>['dtypedescr'] = arrayinfotodtype(<d>)
+    from ..pathcond import inline as _inl
+    stored = [n for fn_ in opener.cls.all_funcs() for n in own_nodes(fn_.node)
+              if isinstance(n, ast.Assign) and len(n.targets) == 1 and isinstance(n.targets[0], ast.Subscript) and
+              isinstance(n.targets[0].slice, ast.Constant) and isinstance(n.value, ast.Call) and
+              dotted(n.value.func) == 'arrayinfotodtype' and n.value.args and
+              norm(n.value.args[0]) == norm(n.targets[0].value)]
+    keys = {n.targets[0].slice.value for n in stored}
+
+    def dcanon(e):
+        if e is None:
+            return None
+        e = _inl(opener, e)
+        if isinstance(e, ast.Subscript) and isinstance(e.slice, ast.Constant) and e.slice.value in keys:
+            return f'arrayinfotodtype({norm(e.value)})'
+        return norm(e)
+    from_descr = rd is not None and ('arrayinfotodtype' in names or (dcanon(rd) or '').startswith('arrayinfotodtype('))
+    ctx.decide(from_descr, 'R-FLOW', clause, opener, ref, 'map-dtype-from-descriptor',
                'the memory map is created with the dtype description derived from the validated descriptor (arrayinfotodtype: numtype + byte order)',
                detail=f'dtype={norm(rd) if rd is not None else None} does not come from arrayinfotodtype')
     for c in cands:
@@ -224,7 +241,8 @@ def opener_branch_agreement(ctx, clause):
             continue
         pos = {'np.zeros': (1, 0, 2), 'np.empty': (1, 0, 2), 'np.ones': (1, 0, 2)}.get(dotted(c.func), (None, None, None))
         cd, cs, co = arg(c, 'dtype', pos[0]), arg(c, 'shape', pos[1]), arg(c, 'order', pos[2])
-        same = all(a is not None and b is not None and norm(a) == norm(b) for a, b in ((cd, rd), (cs, rs), (co, ro)))
+        same = all(a is not None and b is not None and (norm(a) == norm(b) or norm(_inl(opener, a)) == norm(_inl(opener, b)))
+                   for a, b in ((cs, rs), (co, ro))) and cd is not None and rd is not None and dcanon(cd) == dcanon(rd)
         ctx.decide(same, 'R-SIB', clause, opener, c, f'substitute-agrees::{dotted(c.func)}',
                    f'the in-memory substitute `{norm(c)[:50]}` is built with the same dtype / shape / order expressions as the memory map',
                    detail=f'substitute uses dtype={norm(cd) if cd is not None else None}, shape={norm(cs) if cs is not None else None}, '
@@ -460,3 +478,72 @@ def opener_default_mode(ctx, clause, opener):
                'the opener uses the handle\'s own current mode when none is requested',
                detail='default mode of the opener is not the handle\'s current mode (e.g. mode strings cached at '
                       'construction: after `a.accessmode = ...` the maps are still opened in the old mode)')
+
+
+def no_runtime_module_state(ctx, clause, modules):
+    """Darr keeps no parsed file content between calls: no module-level container of the given modules is filled at run
+    time (subscript store / del / mutating method / `global` rebinding inside a function).  With such a cache, what is
+    validated at open time is the remembered content, not the file — the expected count is zero; the thorough tier keeps
+    a seeded cache as the positive example."""
+    MUT = {'pop', 'popitem', 'clear', 'update', 'setdefault', 'append', 'extend', 'add', 'remove', 'discard', 'insert',
+           '__setitem__', '__delitem__'}
+    n_ob = 0
+    for mn in modules:
+        m = ctx.repo.module(mn)
+        containers = {}
+        for st in m.tree.body:
+            if isinstance(st, (ast.Assign, ast.AnnAssign)):
+                tg = st.targets if isinstance(st, ast.Assign) else [st.target]
+                v = st.value
+                if v is not None and (isinstance(v, (ast.Dict, ast.List, ast.Set)) or
+                                      (isinstance(v, ast.Call) and dotted(v.func) in ('dict', 'list', 'set', 'OrderedDict',
+                                                                                      'collections.OrderedDict', 'defaultdict',
+                                                                                      'collections.defaultdict',
+                                                                                      'weakref.WeakValueDictionary'))):
+                    for t in tg:
+                        if isinstance(t, ast.Name):
+                            containers[t.id] = st
+        for f in m.all_funcs():
+            local = {n.id for n in own_nodes(f.node) if isinstance(n, ast.Name) and isinstance(n.ctx, ast.Store)} | set(f.params)
+            globs = {x for n in own_nodes(f.node) if isinstance(n, ast.Global) for x in n.names}
+            for n in own_nodes(f.node):
+                hit = None
+                if isinstance(n, ast.Subscript) and isinstance(n.ctx, (ast.Store, ast.Del)) and isinstance(n.value, ast.Name):
+                    hit = n.value.id
+                elif isinstance(n, ast.Call) and isinstance(n.func, ast.Attribute) and n.func.attr in MUT and \
+                        isinstance(n.func.value, ast.Name):
+                    hit = n.func.value.id
+                elif isinstance(n, ast.Name) and isinstance(n.ctx, ast.Store) and n.id in globs:
+                    hit = n.id
+                if hit is None or hit not in containers and hit not in globs:
+                    continue
+                if hit in local and hit not in globs:
+                    continue            # a local of the same name
+                # only content that comes from a file matters (a memo of a pure computation changes nothing)
+                if isinstance(n, ast.Subscript):
+                    par = [p_ for p_, _ in enclosing(f.node, n) if isinstance(p_, (ast.Assign, ast.AugAssign, ast.AnnAssign))]
+                    val = par[0].value if par and isinstance(n.ctx, ast.Store) else None
+                elif isinstance(n, ast.Call):
+                    val = ast.Tuple(elts=list(n.args) + [k.value for k in n.keywords], ctx=ast.Load()) if n.args or n.keywords else None
+                else:
+                    par = [p_ for p_, _ in enclosing(f.node, n) if isinstance(p_, (ast.Assign, ast.AugAssign, ast.AnnAssign))]
+                    val = par[0].value if par else None
+                if val is None:
+                    continue
+                src = derived(f.node, val)
+                for w in ast.walk(f.node):
+                    if isinstance(w, ast.withitem) and w.optional_vars is not None and set(names_in(w.optional_vars)) & src:
+                        src |= derived(f.node, w.context_expr)
+                if not any(t in x for x in src for t in ('json.load', '.read', 'read_', 'fromfile', 'memmap', 'open', 'stat')):
+                    continue
+                n_ob += 1
+                ctx.bad('R-OWN', clause, f, n, f'module-state::{mn}.{hit}',
+                        f'no module-level state of {mn}.py is filled at run time',
+                        detail=f'`{norm(n)[:60]}` stores into the module-level `{hit}`: file content (or something derived from '
+                               f'it) is remembered between calls, so later validation and reads see the remembered content '
+                               f'instead of what is on disk')
+        if not any(f'module-state::{mn}.' in o.construct for o in ctx.obs):
+            ctx.ok('R-OWN', clause, f'darr/{mn}.py', None, f'module-state::{mn}',
+                   f'no module-level container of {mn}.py is written by any function '
+                   f'({len(containers)} module-level container(s): {sorted(containers)[:8]})')
+    return n_ob
